@@ -344,6 +344,52 @@ pub fn run(ctx: &Ctx) -> Report {
       report.fail("property", "magnet-own-parser", case, format!("imdl's parser rejects what `torrent link` printed: {uri}"));
     }
   }
+  // ---- `torrent link` on generated torrents of every accepted shape: topic, name and trackers as the file states them
+  {
+    let mut rng = Rng::new(ctx.seed).fork(0xC10D);
+    let o = crate::gen_torrent::Opts::default();
+    for _ in 0..ctx.n(120, 5000) {
+      let (v, bytes) = crate::gen_torrent::accepted(&mut rng, &o);
+      let sb = Sandbox::new(&ctx.work, "c10g");
+      sb.write("t.torrent", &bytes);
+      let out = Cmd::new(&ctx.imdl, &["torrent", "link", "--input", "t.torrent"]).cwd(&sb.root).run();
+      if !out.ok() {
+        continue; // not accepted (unparsable tracker text, say): the statement is about accepted torrents
+      }
+      let case = json!({"cli": "torrent link", "torrent_hex": hex(&bytes)});
+      report.case(Some(crate::report::fnv(&bytes)));
+      report.hit("cli:torrent-link-generated");
+      let so = out.stdout_s();
+      let uri = so.strip_suffix('\n').unwrap_or(&so);
+      let Some((a, b)) = crate::bencode::find_span(&bytes, b"info") else { continue };
+      let ih = sha1::Sha1::from(&bytes[a..b]).digest().bytes();
+      let name = v.get("info").and_then(|i| i.get("name")).and_then(|n| n.as_str()).map(|s| s.to_string());
+      let mut texts: Vec<String> = Vec::new();
+      if let Some(a) = v.get("announce").and_then(|a| a.as_str()) {
+        texts.push(a.to_string());
+      }
+      if let Some(tiers) = v.get("announce-list").and_then(|l| l.as_list()) {
+        for t in tiers {
+          for u in t.as_list().unwrap_or(&[]) {
+            if let Some(u) = u.as_str() {
+              if !texts.contains(&u.to_string()) {
+                texts.push(u.to_string());
+              }
+            }
+          }
+        }
+      }
+      if texts.iter().any(|t| url::Url::parse(t).is_err()) {
+        continue;
+      }
+      let trs: Vec<String> = texts.iter().map(|t| url::Url::parse(t).unwrap().to_string()).collect();
+      let c = Case { infohash: ih, name, trackers: vec![], peers: vec![], indices: vec![] };
+      let want = expected(&c, &trs, &[]);
+      if let Some(d) = judge_uri(uri, &want) {
+        report.fail("property", "magnet-uri-decodes-wrong", case, format!("`torrent link` printed `{uri}`: {d}"));
+      }
+    }
+  }
   // `create --link` prints the link of what it would write, also under --dry-run
   for dry in [false, true] {
     let sb = Sandbox::new(&ctx.work, "c10d");
